@@ -182,19 +182,28 @@ def joinNats (l : List Nat) : String := ",".intercalate (l.map toString)
 /-- the blocks of a history, in flush order: the events `send`-ed between two flushes (`fl` / `ro`) form one block (the
 write buffer of the index is cut at every flush; with at most a few dozen small events it never fills up earlier).
 Events not yet sent, or sent after the last flush, are in no block.  `rq/…` tokens (a query run at that point of the
-history) do not change what is stored. -/
+history) do not change what is stored, `st/<n>` tokens (the ingest stream of the following batches) only how it is laid out. -/
 def flushedBlocks (toks : List String) : Option (List (List Event)) :=
-  let rec go (toks : List String) (batch pending : List Event) (blocks : List (List Event)) : Option (List (List Event)) :=
+  -- `st/<n>` (between batches): the following batches go to ingest stream n; every stream has its own write buffer, so a
+  -- flush cuts one block PER STREAM that has pending events (in stream order; only the `nsgrant` latitude reads the blocks)
+  let cut (pending : List (Nat × Event)) : List (List Event) :=
+    let streams := (pending.map (·.1)).eraseDups
+    streams.map (fun s => (pending.filter (·.1 == s)).map (·.2))
+  let rec go (toks : List String) (cur : Nat) (batch pending : List (Nat × Event)) (blocks : List (List Event)) : Option (List (List Event)) :=
     match toks with
     | [] => some blocks
     | t :: r =>
-      if t == "send" then go r [] (pending ++ batch) blocks
-      else if t == "fl" || t == "ro" then go r batch [] (if pending.isEmpty then blocks else blocks ++ [pending])
-      else if t.startsWith "rq/" then go r batch pending blocks
+      if t == "send" then go r cur [] (pending ++ batch) blocks
+      else if t == "fl" || t == "ro" then go r cur batch [] (blocks ++ cut pending)
+      else if t.startsWith "rq/" then go r cur batch pending blocks
+      else if t.startsWith "st/" then
+        match (t.drop 3).toString.toNat?, batch with
+        | some n, [] => go r n [] pending blocks
+        | _, _ => none
       else match parseEv t with
-        | some e => go r (batch ++ [e]) pending blocks
+        | some e => go r cur (batch ++ [(cur, e)]) pending blocks
         | none => none
-  go toks [] [] []
+  go toks 0 [] [] []
 
 /-- flushed events of a history: everything `send`-ed before the last `fl`/`ro` -/
 def flushedEvents (toks : List String) : Option (List Event) := (flushedBlocks toks).map List.flatten
